@@ -88,6 +88,10 @@ pub struct PreState {
     /// A tool that reads no clock cannot depend on it.
     #[serde(default)]
     pub clock: i64,
+    /// run the tool as an unprivileged user (nobody) instead of root; the scratch tree is made
+    /// world-writable first. Root ignores permission bits, an ordinary user does not.
+    #[serde(default)]
+    pub unprivileged: bool,
 }
 
 #[derive(Clone, Debug, PartialEq, Eq, Serialize, Deserialize)]
@@ -431,6 +435,7 @@ impl Engine for CliSim {
             path_form: if r.chance(1, 4) { r.range(1, 2) as u8 } else { 0 },
             via_symlink: r.chance(1, 8),
             non_utf8: r.chance(1, 10),
+            unprivileged: r.chance(1, 4),
             clock: if r.chance(1, 4) {
                 *r.pick(&[
                     1835438400i64, // 2028-02-29 12:00:00 (leap day)
@@ -582,6 +587,7 @@ impl Engine for CliSim {
             || t.pre.via_symlink
             || t.pre.non_utf8
             || t.pre.clock != 0
+            || t.pre.unprivileged
         {
             let mut c = t.clone();
             c.pre = PreState {
@@ -597,6 +603,7 @@ impl Engine for CliSim {
                 via_symlink: false,
                 non_utf8: false,
                 clock: 0,
+                unprivileged: false,
             };
             v.push(c);
             let mut c = t.clone();
@@ -765,14 +772,30 @@ fn scenario(t: &CliTrace, fault: Option<&(usize, Fault)>, o: &mut Outcome, label
         let report = root.join(format!("report-{i}.json"));
         #[allow(unused_mut)]
         let bin = std::env::var("CLISIM_BIN").expect("CLISIM_BIN");
+        // the program chain: [sh -c 'umask ..; exec "$0" "$@"'] [setpriv ... --] tool
+        let drop_priv = t.pre.unprivileged && is_root() && Path::new("/usr/bin/setpriv").exists();
+        let mut chain: Vec<std::ffi::OsString> = Vec::new();
+        if drop_priv {
+            for a in ["/usr/bin/setpriv", "--reuid=65534", "--regid=65534", "--clear-groups", "--"] {
+                chain.push(a.into());
+            }
+            make_world_writable(&root);
+            if t.pre.other_fs {
+                make_world_writable(&shm_root);
+            }
+            o.count("invocations_as_unprivileged_user", 1);
+        }
+        chain.push(bin.into());
         let mut cmd = if t.pre.umask == 0 {
-            Command::new(&bin)
+            let mut c = Command::new(&chain[0]);
+            c.args(&chain[1..]);
+            c
         } else {
-            // the shell sets the file-creation mask and then *becomes* the tool (exec), so the
-            // seam's counters start with the tool's own first system call
+            // the shell sets the file-creation mask and then *becomes* the next program (exec), so
+            // the seam's counters start with the tool's own first system call
             let mask = ["022", "077", "000", "027"][t.pre.umask as usize & 3];
             let mut c = Command::new("/bin/sh");
-            c.arg("-c").arg(format!("umask {mask}; exec \"$0\" \"$@\"")).arg(&bin);
+            c.arg("-c").arg(format!("umask {mask}; exec \"$0\" \"$@\"")).args(&chain);
             c
         };
         cmd.args(inv.os_args(&out_arg)).current_dir(&root).env_clear();
@@ -800,9 +823,36 @@ fn scenario(t: &CliTrace, fault: Option<&(usize, Fault)>, o: &mut Outcome, label
                 cmd.env("DETSYS_PLAN", format!("{kind}:{k}:{errno}"));
             }
         }
-        let outp = cmd.output().expect("spawn rustls-cert-gen");
-        let code = outp.status.code();
-        let stderr = String::from_utf8_lossy(&outp.stderr).to_string();
+        // watchdog: a tool that never returns is ended after the limit (it only ever matters for
+        // a broken tool; a run takes milliseconds)
+        cmd.stdout(std::process::Stdio::null()).stderr(std::process::Stdio::piped());
+        let mut child = cmd.spawn().expect("spawn rustls-cert-gen");
+        let mut err_pipe = child.stderr.take().expect("stderr pipe");
+        let err_reader = std::thread::spawn(move || {
+            let mut v = Vec::new();
+            let _ = std::io::Read::read_to_end(&mut err_pipe, &mut v);
+            v
+        });
+        let limit = std::time::Duration::from_secs(simcore::engine::watchdog_secs() * 2);
+        let started = std::time::Instant::now();
+        let mut timed_out = false;
+        let status = loop {
+            match child.try_wait().expect("wait") {
+                Some(st) => break st,
+                None if started.elapsed() > limit => {
+                    timed_out = true;
+                    let _ = child.kill();
+                    break child.wait().expect("wait after kill");
+                }
+                None => std::thread::sleep(std::time::Duration::from_millis(if started.elapsed().as_millis() < 100 { 1 } else { 20 })),
+            }
+        };
+        let code = if timed_out { Some(-1) } else { status.code() };
+        let mut stderr = String::from_utf8_lossy(&err_reader.join().unwrap_or_default()).to_string();
+        if timed_out {
+            stderr = format!("(did not terminate within {} s; ended by the watchdog) {stderr}", limit.as_secs());
+            o.count("invocations_ended_by_watchdog", 1);
+        }
         let rep: serde_json::Value =
             std::fs::read_to_string(&report).ok().and_then(|s| serde_json::from_str(&s).ok()).unwrap_or(serde_json::Value::Null);
         let _ = std::fs::remove_file(&report);
@@ -855,6 +905,29 @@ fn scenario(t: &CliTrace, fault: Option<&(usize, Fault)>, o: &mut Outcome, label
         let _ = std::fs::remove_dir_all(&shm_root);
     }
     res
+}
+
+fn is_root() -> bool {
+    std::fs::metadata("/proc/self").map(|m| std::os::unix::fs::MetadataExt::uid(&m) == 0).unwrap_or(false)
+}
+
+/// chmod -R a+rwX (without following symlinks)
+fn make_world_writable(p: &Path) {
+    use std::os::unix::fs::PermissionsExt;
+    let Ok(md) = std::fs::symlink_metadata(p) else { return };
+    if md.file_type().is_symlink() {
+        return;
+    }
+    if md.is_dir() {
+        let _ = std::fs::set_permissions(p, std::fs::Permissions::from_mode(0o777));
+        if let Ok(rd) = std::fs::read_dir(p) {
+            for e in rd.flatten() {
+                make_world_writable(&e.path());
+            }
+        }
+    } else {
+        let _ = std::fs::set_permissions(p, std::fs::Permissions::from_mode(0o666));
+    }
 }
 
 fn fault_tag(f: &Fault) -> String {
